@@ -3,6 +3,8 @@ import Tickit.Proof.WinFlush
 import Tickit.Proof.WinHanded
 import Tickit.Proof.RectSetInv
 import Tickit.Gen.Win
+import Tickit.Proof.WinRB
+import Tickit.Proof.XTermDrv
 /-
   C02 — A window's drawing is confined to the cells it owns, in its own coordinates.
 
@@ -42,9 +44,10 @@ theorem do_expose_ownership_complete (beh : Id → Rect → List DrawOp) (st st'
       ∃ sh ∈ shots, sh.rb.writable L C = true :=
   fun L C hc ho => (flushRender_shots beh st st' t shots h hroot).2 hflag L C hc ho
 
-/-- **Confinement**: whatever drawing program runs in the place of a handler — text, erase, characters, skips, clears at
-    any coordinates, with any translation, clip and pen changes — the only buffer cells that change are damaged cells
-    owned by that handler's window; positions are relative to the window's top-left corner. -/
+/-- **Confinement**: whatever drawing program runs in the place of a handler — text, erase, characters, line segments,
+    skips, clears, copies and moves of rectangles at any coordinates, with any translation, clip and pen changes, saved and
+    restored (`save` / `savepen` / `restore`) in any nesting — the only buffer cells that change are damaged cells owned
+    by that handler's window; positions are relative to the window's top-left corner. -/
 theorem confinement (beh : Id → Rect → List DrawOp) (st st' : St) (t : Tree) (shots : List Shot)
     (h : flushRender beh st t = .ok (st', shots)) (hroot : RootOk t) :
     ∀ sh ∈ shots, ∀ (prog : List DrawOp) (L C : Int), (sh.rb.run prog).cells L C ≠ sh.rb.cells L C →
@@ -52,7 +55,7 @@ theorem confinement (beh : Id → Rect → List DrawOp) (st st' : St) (t : Tree)
   intro sh hsh prog L C hne
   cases hw : sh.rb.writable L C with
   | true => exact do_expose_ownership beh st st' t shots h hroot sh hsh L C hw
-  | false => exact absurd (run_cells_of_not_writable prog sh.rb L C hw) hne
+  | false => exact absurd (run_cells_of_not_writable prog sh.rb (flushRender_shots_masksLe beh st st' t shots h sh hsh) L C hw) hne
 
 /-- The same on the terminal: whatever all the handlers draw, a terminal cell that the flush changes is a damaged
     cell inside the root window. -/
@@ -140,11 +143,218 @@ example : (match exampleState with
     | .ub _ => false) = true := by
   decide +kernel
 
+/-! ### the wider drawing vocabulary: line segments, copies and moves of rectangles, save / savepen / restore
+
+  `confinement`, `do_expose_ownership` and `screen_change_confined` above hold for every behaviour `beh`, hence for handlers
+  that draw line segments, copy and move rectangles and save and restore the buffer's state in any nesting.  The theorems
+  of this section state, operation by operation, the three facts those proofs rest on — each is the clause one seeded
+  change of the library broke. -/
+
+/-- **Line segments stop at a mask**: a cell the buffer does not let the handler touch — covered by a visible child or by
+    a higher sibling, or outside the clip — keeps what it holds, also when it already holds line segments (the border the
+    covering window drew) and the new segment runs straight through it: nothing is merged into a LINE cell under a mask. -/
+theorem line_segments_confined (rb : RB) (L C : Int) (h : rb.writable L C = false) :
+    (∀ line c0 c1 style caps, (rb.hlineAt line c0 c1 style caps).cells L C = rb.cells L C) ∧
+    (∀ l0 l1 col style caps, (rb.vlineAt l0 l1 col style caps).cells L C = rb.cells L C) :=
+  ⟨fun line c0 c1 style caps => (paints_hlineAt rb line c0 c1 style caps).cells L C h,
+   fun l0 l1 col style caps => (paints_vlineAt rb l0 l1 col style caps).cells L C h⟩
+
+/-- … in particular a masked LINE cell keeps its segments and its pen. -/
+theorem masked_line_cell_kept (rb : RB) (L C : Int) (pen : Pen) (mask : Nat) (hm : rb.masked L C = true)
+    (hc : rb.cells L C = some (.line pen mask)) (line c0 c1 : Int) (style caps : Nat) :
+    (rb.hlineAt line c0 c1 style caps).cells L C = some (.line pen mask) := by
+  rw [(line_segments_confined rb L C (by simp [RB.writable, hm])).1, hc]
+
+/-- **A copy or a move of a rectangle is confined like any other drawing and leaves the buffer's frame alone**: cells the
+    buffer does not let the handler touch keep their value, and the save/restore stack (with the frame
+    `tickit_window_flush` / `_do_expose` pushed for the window: damage clip, window bounds, translation), the masks of the
+    windows in front, the clip, the translation and the pen are what they were — whatever the two rectangles are and
+    whatever runs of cells the copy walks over or overwrites. -/
+theorem copy_move_confined (rb : RB) (dest src : Rect) :
+    (∀ L C, rb.writable L C = false →
+      (rb.copyRect dest src).cells L C = rb.cells L C ∧ (rb.moveRect dest src).cells L C = rb.cells L C) ∧
+    ((rb.copyRect dest src).stack = rb.stack ∧ (rb.copyRect dest src).masks = rb.masks ∧
+     (rb.copyRect dest src).clip = rb.clip ∧ (rb.copyRect dest src).xl = rb.xl ∧ (rb.copyRect dest src).xc = rb.xc ∧
+     (rb.copyRect dest src).pen = rb.pen) ∧
+    ((rb.moveRect dest src).stack = rb.stack ∧ (rb.moveRect dest src).masks = rb.masks ∧
+     (rb.moveRect dest src).clip = rb.clip ∧ (rb.moveRect dest src).xl = rb.xl ∧ (rb.moveRect dest src).xc = rb.xc ∧
+     (rb.moveRect dest src).pen = rb.pen) := by
+  have hc := paints_copyRect rb dest src
+  have hmv := paints_moveRect rb dest src
+  have hcx : (rb.copyRect dest src).xl = rb.xl ∧ (rb.copyRect dest src).xc = rb.xc ∧ (rb.copyRect dest src).pen = rb.pen := by
+    unfold RB.copyRect
+    simp only
+    split
+    · exact ⟨rfl, rfl, rfl⟩
+    · split <;> exact ⟨rfl, rfl, rfl⟩
+  have hmx : (rb.moveRect dest src).xl = rb.xl ∧ (rb.moveRect dest src).xc = rb.xc ∧ (rb.moveRect dest src).pen = rb.pen := by
+    unfold RB.moveRect
+    simp only
+    split
+    · exact ⟨rfl, rfl, rfl⟩
+    · split
+      · exact ⟨rfl, rfl, rfl⟩
+      · exact hcx
+  exact ⟨fun L C h => ⟨hc.cells L C h, hmv.cells L C h⟩,
+    ⟨hc.stack, hc.masks, hc.clip, hcx.1, hcx.2.1, hcx.2.2⟩, ⟨hmv.stack, hmv.masks, hmv.clip, hmx.1, hmx.2.1, hmx.2.2⟩⟩
+
+/-- What a copy inside its domain (`RB.copyDomain`: source inside the buffer, the walk of `copyrect` safe for the real
+    displacement) leaves in a cell: a cell the buffer lets the handler touch whose pre-image lies in the source
+    rectangle takes the source cell's content *as it was before the call* (its pen completed from the current pen, line
+    segments merged); every other cell is untouched.  The source rectangle is in buffer coordinates, the destination goes
+    through the translation (`copyRect_source_is_absolute` below). -/
+theorem copyRect_cells (rb : RB) (dest src : Rect) (hne : ¬ (dest.top - src.top = 0 ∧ dest.left - src.left = 0))
+    (hd : rb.copyDomain dest src = true) (L C : Int) :
+    (rb.copyRect dest src).cells L C =
+      if src.memb (L - (dest.top - src.top + rb.xl)) (C - (dest.left - src.left + rb.xc)) ∧ rb.writable L C then
+        (rb.transfer rb.nextId (rb.cells (L - (dest.top - src.top + rb.xl)) (C - (dest.left - src.left + rb.xc)))
+          (rb.cpen (L - (dest.top - src.top + rb.xl)) (C - (dest.left - src.left + rb.xc))) (rb.cells L C)).1
+      else rb.cells L C := by
+  unfold RB.copyRect
+  simp only [hne, if_false, hd, Bool.not_true]
+  rfl
+
+/-- **`savepen` … `restore` (and `save` … `restore`) closes exactly the level it opened**: the masks of the windows in
+    front — made at levels not above the current one — are still there afterwards, so what the buffer lets the handler
+    (and every handler after it) touch is unchanged. -/
+theorem save_restore_keeps_masks (rb : RB) (hm : MasksLe rb) :
+    rb.savepen.restore.masks = rb.masks ∧ rb.save.restore.masks = rb.masks ∧
+    (∀ L C, rb.savepen.restore.writable L C = rb.writable L C) ∧ (∀ L C, rb.save.restore.writable L C = rb.writable L C) := by
+  have hf : rb.masks.filter (fun m => decide (m.2 ≤ rb.stack.length)) = rb.masks :=
+    List.filter_eq_self.mpr (fun m hmm => by simpa using hm m hmm)
+  have h1 : rb.savepen.restore.masks = rb.masks := by simp [RB.savepen, RB.restore, hf]
+  have h2 : rb.save.restore.masks = rb.masks := by simp [RB.save, RB.restore, hf]
+  have c1 : rb.savepen.restore.clip = rb.clip := by simp [RB.savepen, RB.restore]
+  have c2 : rb.save.restore.clip = rb.clip := by simp [RB.save, RB.restore]
+  exact ⟨h1, h2, fun L C => writable_congr c1 h1 L C, fun L C => writable_congr c2 h2 L C⟩
+
+/-- The same for a whole handler program, whatever it saves and restores: the stack, the masks and the size of the
+    buffer are as the handler found them, it could only narrow what the buffer lets it touch, and no cell outside that
+    changed.  (`MasksLe`: every mask was made at a level not above the current one — true of every buffer a handler is
+    handed, `flushRender_shots_masksLe`.) -/
+theorem program_keeps_frame (prog : List DrawOp) (rb : RB) (hm : MasksLe rb) :
+    (rb.run prog).stack = rb.stack ∧ (rb.run prog).masks = rb.masks ∧
+    (∀ L C, (rb.run prog).writable L C = true → rb.writable L C = true) ∧
+    (∀ L C, rb.writable L C = false → (rb.run prog).cells L C = rb.cells L C) :=
+  ⟨(run_sameFrame prog rb hm).stack, (run_sameFrame prog rb hm).masks, run_writable_sub prog rb hm,
+   run_cells_of_not_writable prog rb hm⟩
+
+theorem handler_buffers_masksLe (beh : Id → Rect → List DrawOp) (st st' : St) (t : Tree) (shots : List Shot)
+    (h : flushRender beh st t = .ok (st', shots)) : ∀ sh ∈ shots, MasksLe sh.rb :=
+  flushRender_shots_masksLe beh st st' t shots h
+
+/-- Why the mask levels matter (the seeded change `savepen` without a level of its own): were a mask recorded one level
+    *above* the stack it lives under, a `savepen` … `restore` pair would drop it. -/
+theorem mask_above_level_dropped :
+    let rb : RB := { (RB.new 1 2) with masks := [(⟨0, 1, 1, 1⟩, 1)] }
+    rb.masked 0 1 = true ∧ rb.savepen.restore.masked 0 1 = false := by
+  decide
+
+/-- `copyrect` reads its source rectangle in *buffer* coordinates: under a translation (any window not at the terminal's
+    origin) the text a handler has just drawn at its own `(0, 0)` is not what `copyRect ⟨0, 1, 1, 1⟩ ⟨0, 0, 1, 1⟩` copies —
+    the buffer's `(0, 0)` is.  (src/renderbuffer.c, `copyrect`: "TODO: consider how this works in the presence of a
+    translation offset"; property C13 is stated for "no translation in force".)  The destination is confined all the
+    same (`copy_move_confined`): the quirk concerns where the copied content comes from, not which cells change. -/
+theorem copyRect_source_is_absolute :
+    let rb := ((RB.new 2 3).translate 1 0).textAt 0 0 [65]
+    (match rb.cells 1 0 with | some (.plain x) => x.glyph | _ => 0) = 65 ∧
+    (match (rb.copyRect ⟨0, 1, 1, 1⟩ ⟨0, 0, 1, 1⟩).cells 1 1 with | none => true | _ => false) = true := by
+  decide +kernel
+
+/-! #### non-vacuity: the three scenarios on a concrete tree -/
+
+/-- Glyph and foreground of the cells `0 … n - 1` of screen row `l` after `r`. -/
+def rowOf (r : Res (St × List Shot)) (l : Int) (n : Nat) : Option (List (Nat × Int)) :=
+  match r with
+  | .ok (st, _) => some ((List.range n).map fun (c : Nat) => ((st.screen l (c : Int)).glyph, (st.screen l (c : Int)).fg))
+  | .ub _ => none
+
+/-- Terminal 3 × 8, root (foreground 1) with a child (foreground 2) at (0, 5) of 2 × 3. -/
+def twoWindows : Res St := do
+  let st := St.init 3 8 (some { fg := some 1 })
+  let (st, _) ← newWin st 0 ⟨0, 5, 2, 3⟩ false false false false (some { fg := some 2 })
+  pure st
+
+/-- The root's handler writes a short text, pulls the empty rest of the line two columns to the left over the text's end
+    (`copyRect`: the copy moves a SKIP run over the start of that very run), and then clears "everything"; the child
+    blanks itself.  Rows 0 and 1: the child's three cells are still the child's. -/
+def pullLeft : Id → Rect → List DrawOp := fun w rect =>
+  if w = 0 then [.textAt 1 0 [82, 82, 82], .copyRect ⟨1, 2, 1, 2⟩ ⟨1, 3, 1, 2⟩, .clear] else [.eraseRect rect]
+
+example : rowOf (twoWindows >>= fun st => flush pullLeft st) 1 8 =
+    some [(32, 1), (32, 1), (32, 1), (32, 1), (32, 1), (32, 2), (32, 2), (32, 2)] := by
+  decide +kernel
+
+/-- The child draws a border of line segments around itself; the root rules a horizontal line along row 0 and a vertical
+    line down column 5, straight through the child's border: the child's cells keep their corners and edges
+    (`┌ ─ ┐` / `└ ─ ┘`, foreground 2), the root's horizontal line (foreground 1) stops at the child and of its vertical
+    line only the end below the child (`╵`) is there. -/
+def ruledBox : Id → Rect → List DrawOp := fun w rect =>
+  if w = 0 then [.eraseRect rect, .hline 0 0 7 1 0, .vline 0 2 5 1 0]
+  else [.eraseRect rect, .hline 0 0 2 1 0, .hline 1 0 2 1 0, .vline 0 1 0 1 0, .vline 0 1 2 1 0]
+
+example : rowOf (twoWindows >>= fun st => flush ruledBox st) 0 8 =
+    some [(0x2576, 1), (0x2500, 1), (0x2500, 1), (0x2500, 1), (0x2500, 1), (0x250c, 2), (0x2500, 2), (0x2510, 2)] ∧
+    rowOf (twoWindows >>= fun st => flush ruledBox st) 1 8 =
+    some [(32, 1), (32, 1), (32, 1), (32, 1), (32, 1), (0x2514, 2), (0x2500, 2), (0x2518, 2)] ∧
+    rowOf (twoWindows >>= fun st => flush ruledBox st) 2 8 =
+    some [(32, 1), (32, 1), (32, 1), (32, 1), (32, 1), (0x2575, 1), (32, 1), (32, 1)] := by
+  decide +kernel
+
+/-- The root's handler draws a label under `savepen` … `restore` (and leaves a `save` open), then clears "everything":
+    the child's cells are still the child's. -/
+def labelled : Id → Rect → List DrawOp := fun w rect =>
+  if w = 0 then [.savepen, .setPen { fg := some 1, b := some true }, .textAt 2 0 [98, 98], .restore, .save, .clear]
+  else [.eraseRect rect]
+
+example : rowOf (twoWindows >>= fun st => flush labelled st) 0 8 =
+    some [(32, 1), (32, 1), (32, 1), (32, 1), (32, 1), (32, 2), (32, 2), (32, 2)] := by
+  decide +kernel
+
+/-! ### below the render buffer: a blank run in reverse video on the reference terminal
+
+  In the xterm configuration of the check the window tree is flushed through the library's xterm driver and the bytes are
+  interpreted by the VT reference interpreter (`Model/VT.lean`); the clauses above are judged on the screen it arrives at.
+  Under reverse video the driver cannot use ECH (an erased cell does not take the reverse attribute) and writes the blanks
+  of an ERASE run as literal spaces, in slices of 64 (`XTermDrv.erasech`; `Props.C09.erasech_effect` proves for every
+  count that exactly `count` cells are blanked).  What the terminal does with them: -/
+
+/-- **`n` spaces blank exactly `n` cells**: on the reference terminal, a run of `n` blanks that fits in the row, written
+    as `n` literal spaces from the cursor, leaves every cell outside `[col, col + n)` of the cursor's row as it was — for
+    every `n` (64, 128, … included) — and the cells inside take the current background and reverse attribute. -/
+theorem spaces_blank_exactly (vt : VT.VTState) (n : Nat) (hn : 0 < n) (hg : vt.ps = .ground) (hpw : vt.pendingWrap = false)
+    (hfit : vt.col + n ≤ vt.cols) (l c : Int) :
+    (VT.run (List.replicate n (0x20 : UInt8)) vt).grid l c =
+      if l = vt.row ∧ vt.col ≤ c ∧ c < vt.col + n then ⟨32, vt.bg, vt.rv⟩ else vt.grid l c := by
+  have hb : ∀ b ∈ List.replicate n (0x20 : UInt8), 0x20 ≤ b ∧ b < 0x7f := by
+    intro b hb
+    rw [List.eq_of_mem_replicate hb]
+    decide
+  have hne : List.replicate n (0x20 : UInt8) ≠ [] := by
+    intro h
+    have := congrArg List.length h
+    simp at this
+    omega
+  rw [XTermDrv.run_ascii _ hb hne vt hg hpw (by simpa using hfit)]
+  simp only [XTermDrv.textGrid, List.length_replicate]
+  split
+  · rw [XTermDrv.getD_replicate_space]; rfl
+  · rfl
+
 /-! ### facts regenerated from the C source on every run -/
 
 /-- The window creation flags are four distinct bits (the harness and the model decode them one by one). -/
 theorem gen_window_flags :
     [Gen.Win.flagHidden, Gen.Win.flagLowest, Gen.Win.flagRootParent, Gen.Win.flagStealInput] = [1, 2, 4, 8] := by
   decide
+
+/-- The numbers the handler programs pass for line style and caps, and the position of each direction in a line mask, are
+    the library's (`TICKIT_LINE_*`, `TICKIT_LINECAP_*`, the `*_SHIFT` enumerators of renderbuffer.c): `WinRB.lineCalls`
+    tests `caps &&& 1` / `caps &&& 2`, `hlineAt` / `vlineAt` shift the style by them. -/
+theorem gen_line_constants :
+    [Gen.Win.linecapStart, Gen.Win.linecapEnd, Gen.LineChars.lineSingle, Gen.LineChars.lineDouble, Gen.LineChars.lineThick,
+     Gen.LineChars.shiftNorth, Gen.LineChars.shiftEast, Gen.LineChars.shiftSouth, Gen.LineChars.shiftWest] =
+    [1, 2, 1, 2, 3, 0, 2, 4, 6] ∧ Gen.LineChars.linemaskToChar.size = 256 := by
+  decide +kernel
 
 end Tickit.Props.C02
